@@ -81,6 +81,9 @@ def adaptive_cases(tier, rng):
     for k in range(40 if tier == 'quick' else 400):
         poly.append(dict(problem='vdp', flavour='poly', mu=rng.choice([5.0, 10.0, 30.0]), e_tol=10 ** rng.uniform(-7, -4), dt=rng.choice([0.1, 0.05, 0.2]),
                          tend=rng.choice([0.5, 1.0]), maxiter=rng.choice([3, 4, 5]), max_restarts=12, crash=False))
+    for oc in itertools.product(['nc', 5.0, 0.3], repeat=4):
+        for dt in (0.1, 0.2):
+            poly.append(dict(problem='test', flavour='poly', e_tol=1e-5, dt=dt, tend=3.5 * dt, maxiter=4, max_restarts=12, crash=False, outcomes=list(oc)))
     return C + scripted + avoid + poly
 
 
